@@ -1469,6 +1469,7 @@ def check_C05(run):
 @prop('C07')
 def check_C07(run):
     from . import l3, l4
+    import shutil
     thorough = run.tier == 'thorough'
     if not prepare(run, need_cli=True):
         return
@@ -1517,6 +1518,29 @@ def check_C07(run):
         os.chmod(base, 0o777); os.makedirs(dst); os.chmod(dst, 0o555)
         outcomes.append(('EACCES-dest-dir', l4.run_cli([src + '/', dst + '/'], env=sb.env(), timeout=60, preexec=as_nobody), dst))
         os.chmod(dst, 0o755)
+        # EFBIG: the destination accepts only `lim` bytes of a file (RLIMIT_FSIZE, SIGXFSZ ignored): limit inside the first part,
+        # on a part boundary, inside a middle part, inside the last part, one byte short; exit 0 <=> the copy is complete
+        import resource, signal
+        sizes = [3000, 6000, 12388, 4096 + 8192 + 16384 + 5] + ([rng.randint(1, 60000) for _ in range(12)] if thorough else [rng.randint(1, 40000)])
+        for n in sizes:
+            lims = sorted({1, n // 3, 2048, 4096, 4096 + 8192, 5120, n - 50, n - 1, n, n + 1})
+            for lim in [l for l in lims if 0 < l]:
+                base, src, dst = tree(f'efbig{n}-{lim}')
+                l3.make_tree(src, [('', 'D'), ('f', 'F', l3.content(n, n), 10**18 + 7), ('g', 'F', b'g', 10**18 + 9)])
+                def limit(lim=lim):
+                    signal.signal(signal.SIGXFSZ, signal.SIG_IGN)
+                    resource.setrlimit(resource.RLIMIT_FSIZE, (lim, lim))
+                r = l4.run_cli([src + '/', dst + '/', '--no-progress'], env=sb.env(), timeout=60, preexec=limit)
+                diffs = tree_equal_mirror(l3.snapshot(src), l3.snapshot(dst))
+                run.case(('l4-efbig', n, lim), True, sample=dict(layer='L4', fault='EFBIG', length=n, rlimit_fsize=lim, rc=r['rc']) if lim == n - 1 else None)
+                run.count(f'l4-efbig:rc={r["rc"]}:' + ('limit<len' if lim < n else 'limit>=len'))
+                if r['rc'] == 0 and diffs:
+                    run.violation(dict(kind='oracle-failed-on-implementation', oracle='exit status 0 only if every planned copy was carried out (destination == source)', layer='L4', fault='EFBIG',
+                                       length=n, rlimit_fsize=lim, rc=0, differences=[str(d)[:200] for d in diffs[:4]], stdout=r['out'][-300:])); break
+                if (lim < n) != (r['rc'] == 12) or r['timeout'] or (r['rc'] == 12 and 'ERROR' not in r['err']):
+                    run.violation(dict(kind='oracle-failed-on-implementation', oracle='a write that the destination refuses (EFBIG) ends the run with status 12 and an error message; a sufficient limit does not', layer='L4',
+                                       fault='EFBIG', length=n, rlimit_fsize=lim, rc=r['rc'], stderr=r['err'][-500:])); break
+                shutil.rmtree(base, ignore_errors=True)
         for name, r, dst in outcomes:
             run.case(('l4-fault', name), True, sample=dict(layer='L4', fault=name, rc=r['rc'], stderr_tail=r['err'][-200:]))
             run.count('l4-fault:' + name)
